@@ -8,7 +8,7 @@ cd $sw
 if ! git apply $wt/seed/patch.diff; then echo "PATCH DOES NOT APPLY: $id"; cd /; git -C /repo worktree remove --force $sw; exit 3; fi
 mkdir -p $out; git diff > $out/patch.diff; cp $wt/seed/meta.json $out/; [ -f $wt/seed/equiv.py ] && cp $wt/seed/equiv.py $out/
 if [ -f $out/equiv.py ]; then
-  (cd $out && PYTHONPATH=/repo/src timeout 600 /venv/bin/python equiv.py > /tmp/benign-$id-a.out 2>/dev/null; PYTHONPATH=$sw/src timeout 600 /venv/bin/python equiv.py > /tmp/benign-$id-b.out 2>/dev/null)
+  (cd $out && export PYTHONHASHSEED=0 && PYTHONPATH=/repo/src timeout 600 /venv/bin/python equiv.py > /tmp/benign-$id-a.out 2>/dev/null; PYTHONPATH=$sw/src timeout 600 /venv/bin/python equiv.py > /tmp/benign-$id-b.out 2>/dev/null)
   sed -i "s#$sw#/repo#g" /tmp/benign-$id-b.out  # tracebacks carry the tree path
   if cmp -s /tmp/benign-$id-a.out /tmp/benign-$id-b.out; then e="equiv outputs identical ($(wc -l < /tmp/benign-$id-a.out) lines)"; else e="EQUIV OUTPUTS DIFFER"; fi
 else e="no equiv.py"; fi
